@@ -1099,6 +1099,16 @@ def _declarations_model(repo, order='fwd'):
     r, exc = st.run(st.ctx(), 'declarations', cyc, [])
     rec('cycle', 'an import cycle terminates', r == [cyc], 'the declarations of an import resolving to itself must be [that import]; got %s'
         % (exc or r,))
+    # round 13 (C08-r13-declarations-cycle-guard-looks-back-two): cycles of two, three and four imports through distinct objects
+    for k in (2, 3, 4):
+        ring = [st.obj('ImportedName', 'import %d of a ring of %d' % (i, k), name='v', location=(i + 1, 0), declared_at=(i + 1, 7))
+                for i in range(k)]
+        for i, im in enumerate(ring):
+            im.attrs['resolve'] = Native('resolve', lambda it, a_, k_, nxt=ring[(i + 1) % k]: nxt)
+        r, exc = st.run(st.ctx(), 'declarations', ring[0], [])
+        rec('cycle', 'an import cycle through %d modules terminates' % k, r == ring,
+            'the declarations of an import in a ring of %d imports (each resolving to the next) must be the %d imports, once each; got %s'
+            % (k, k, exc or r,))
     # attribute
     recv = st.obj('Object', 'receiver value', get_attr=Native('get_attr', lambda it, a_, k: b if a_[1] == 'attr' else None))
     an = st.obj(None, 'attribute node', value=recv, attr='attr')
